@@ -92,14 +92,30 @@ def evaluate_lines(impl, sem, lines, want_fallback=True):
     return out
 
 
+def prop_fallback(isa, mnemonic):
+    """the documented fall-backs, read from the property (not from the code): one trailing AT&T size
+    suffix dropped on x86; the AArch64 mnemonic cut at its first '.'"""
+    if isa == "x86":
+        return mnemonic[:-1] if mnemonic and mnemonic[-1] in "bswlqt" else None
+    return mnemonic.split(".", 1)[0] if "." in mnemonic else None
+
+
 def ask_lookup(ctx, isa, forms, recs):
-    qs = [esc(r["mnemonic"] + ";" + r["canon"]) for r in recs]
+    """one driver request per model: every record, then the fall-back mnemonic of every record that has one"""
+    alts = [(i, prop_fallback(isa, r["mnemonic"])) for i, r in enumerate(recs)]
+    alts = [(i, a) for i, a in alts if a is not None]
+    qs = [esc(r["mnemonic"] + ";" + r["canon"]) for r in recs] + [esc(a + ";" + recs[i]["canon"]) for i, a in alts]
     req = "c07lookup %s %s %s" % (esc(isa), esc(pressure.yenc(forms)), " ".join(qs))
     rep = ctx.driver.ask([req])[0]
     if rep in ("load-error", "bad-request"):
         return None, rep
     parts = rep.split(" ")
-    return int(parts[0]), [p.split(",") for p in parts[1:]]
+    answers = [p.split(",") for p in parts[1:]]
+    main, extra = answers[:len(recs)], answers[len(recs):]
+    for (i, _), a in zip(alts, extra):
+        if len(main[i]) == 4:
+            main[i].append(a[2] if len(a) == 4 else "?")          # oracle index under the fall-back mnemonic
+    return int(parts[0]), main
 
 
 def idx_text(i):
@@ -116,10 +132,11 @@ def compare(ctx, where, isa, forms, recs, replay_extra, stats, check_fallback=Tr
         ctx.correspondence_break("loadEntries", {"where": where, "reply": answers})
         return
     for r, a in zip(recs, answers):
-        if a == ["bad-query"] or len(a) != 4:
+        if a == ["bad-query"] or len(a) < 4:
             ctx.correspondence_break("operand-codec", {"where": where, "line": r["line"], "canon": r["canon"]})
             continue
-        m, f, s, dom = a
+        m, f, s, dom = a[:4]
+        s_alt = a[4] if len(a) > 4 else None
         stats["lookups"] += 1
         direct = idx_text(r["direct"])
         if dom != "1":
@@ -144,6 +161,14 @@ def compare(ctx, where, isa, forms, recs, replay_extra, stats, check_fallback=Tr
                                                               "impl": idx_text(r["final"]), "model": f})
             if f != m:
                 stats["fallback_used"] += 1
+            # the property: full mnemonic first, then the documented fall-back, nothing else
+            expected = s if s != "-" else (s_alt if s_alt is not None else "-")
+            if dom == "1" and idx_text(r["final"]) != expected:
+                stats["oracle_diff"] += 1
+                ctx.violation("%s: `%s` ends up with entry %s (mnemonics tried: %s); with the documented fall-backs the first agreeing "
+                              "entry is %s" % (where, r["line"], idx_text(r["final"]), r["tried"], expected),
+                              dict(replay_extra, kind="fallback", isa=isa, line=r["line"], impl=idx_text(r["final"]), expected=expected),
+                              key="fallback:%s:%s" % (where, r["line"]))
         stats["found" if r["direct"] is not None else "none"] += 1
 
 
@@ -314,7 +339,7 @@ def synthetic(ctx, stats):
     from osaca.semantics import ArchSemantics, MachineModel
 
     quick = ctx.tier == "quick" and not ctx.broken
-    n_models = 7 if quick else 60
+    n_models = 18 if quick else 60
     per_model = 110 if quick else 250
     for isa in ("x86", "aarch64"):
         for mi in range(n_models):
@@ -382,7 +407,7 @@ def replay(ctx, path):
     from osaca.semantics import ArchSemantics, MachineModel
 
     kind = rep.get("kind")
-    if kind not in ("lookup", "never-unknown", "crash", "dead-entry", "flags"):
+    if kind not in ("lookup", "never-unknown", "crash", "dead-entry", "flags", "fallback"):
         print("replay names a broken theorem/correspondence, not an input:", json.dumps(rep)[:800])
         ctx.cleanup()
         return 1
@@ -408,6 +433,11 @@ def replay(ctx, path):
         if kind == "lookup":
             rc = 0 if idx_text(got) == rep["expected"] else 1
             print("expected (first entry agreeing in kind):", rep["expected"])
+        elif kind == "fallback":
+            sem = ArchSemantics(mm)
+            tried, final, exc = record_fallback(impl, sem, impl.parse(rep["line"]))
+            print("assign_tp_lt tried %s and ends with entry %s; expected %s" % (tried, idx_text(final), rep["expected"]))
+            rc = 0 if idx_text(final) == rep["expected"] else 1
         elif kind == "never-unknown":
             rc = 0 if got is not None else 1
         else:
